@@ -33,6 +33,7 @@ OP_KINDS = [
     "remove_geometries",
     "nodes",
     "get_disconnected",
+    "get_unknown",
     "bad_setitem",
     "clear",
 ]
@@ -336,6 +337,11 @@ class C09(World):
                 if not pairs:
                     continue
                 op["pair"] = list(rng.choice(pairs))
+            elif kind == "get_unknown":
+                # a question about a frame that is not in the graph (a typo, a frame removed earlier)
+                op["unknown"] = rng.choice(["nowhere", "zz", "a_1"] + [f for f in frames if f not in nodes and f != "world"][:2])
+                op["other"] = rng.choice(nodes) if nodes else None
+                op["form"] = rng.choice(["to", "from", "both", "getitem", "contains"])
             elif kind == "remove_geometries":
                 op["names"] = rng.sample(GEOMS, rng.randint(1, 2))
                 op["as_str"] = rng.random() < 0.3
@@ -531,6 +537,32 @@ class C09(World):
             except Exception as e:
                 out = type(e).__name__
                 ctx.count("exc:" + out)
+            return out
+        if k == "get_unknown":
+            u, other = op["unknown"], op.get("other")
+            if u in model.nodes or (op["form"] in ("to", "from") and other not in model.nodes):
+                raise Inapplicable()
+            ctx.count("fault:get_unknown")
+            try:
+                if op["form"] == "to":
+                    graph.get(u, other)
+                elif op["form"] == "from":
+                    graph.get(other, u)
+                elif op["form"] == "both":
+                    graph.get(u, u)
+                elif op["form"] == "getitem":
+                    graph[u]
+                else:
+                    if u in graph:
+                        ctx.fail("model", "contains", f"{u!r} in graph although no such frame exists")
+                out = "returned"
+            except (KeyboardInterrupt, SystemExit):
+                raise
+            except Exception as e:
+                out = type(e).__name__
+                ctx.count("exc:" + out)
+            # whatever the answer was, asking is not editing: the graph holds exactly the frames it held
+            self._nodes(graph, model, ctx)
             return out
         if k == "bad_setitem":
             ctx.count("fault:bad_setitem")
